@@ -3,6 +3,7 @@
 #include "common.h"
 #include "cfggen.h"
 #include "apiops.h"
+#include "cfgmut.h"
 #include "../contracts.h"
 
 namespace {
@@ -205,13 +206,23 @@ struct Conc : Prop {
 		if (is_c11) { J ph = J::obj(); J pre = J::arr(); J h = J::obj(); h.set("op", "heal"); pre.push(h); ph.set("pre", pre); J post = J::arr(); post.push("quiesce"); ph.set("post", post); phs.push(ph); }
 		se.set("phases", phs);
 		J ss = J::arr();
-		if (is_c11 && r.chance(200)) {
+		if (is_c11 && r.chance(300)) {
 			// a rejected configuration first (duplicate id): the failed start runs the whole stop path
+			// (a duplicated accessory id, or any structure-aware mutation of one of the three files: duplicate values such as dcc addresses,
+			// deleted / renamed keys, bad formats ... - whatever the start makes of it, no lock may stay held and no call may block)
 			J cfgs = plan["configs"]; J bad = cfgs[0];
-			std::string t = bad.gets("track");
-			size_t pos = t.find("      - id: ");
-			if (pos != std::string::npos) { size_t eol = t.find('\n', pos); size_t nxt = t.find("      - id: ", eol); if (nxt != std::string::npos) { size_t e2 = t.find('\n', nxt); t = t.substr(0, nxt) + t.substr(pos, eol - pos) + t.substr(e2); } }
-			bad.set("track", t); cfgs.push(bad); plan.set("configs", cfgs);
+			if (r.coin()) {
+				std::string t = bad.gets("track");
+				size_t pos = t.find("      - id: ");
+				if (pos != std::string::npos) { size_t eol = t.find('\n', pos); size_t nxt = t.find("      - id: ", eol); if (nxt != std::string::npos) { size_t e2 = t.find('\n', nxt); t = t.substr(0, nxt) + t.substr(pos, eol - pos) + t.substr(e2); } }
+				bad.set("track", t);
+			} else {
+				static const char *files[] = {"board", "track", "train"};
+				const char *fk = files[r.chance(600) ? 1 : r.below(3)];
+				std::map<std::string, int> kinds;
+				bad.set(fk, cfgmut::mutate(r, bad.gets(fk), kinds));
+			}
+			cfgs.push(bad); plan.set("configs", cfgs);
 			J s0 = cfg::normal_session(1, 0); J st = J::obj(); st.set("mode", "pointer"); st.set("config", 1); st.set("flush_ms", 0); s0.set("start", st);
 			ss.push(s0);
 		}
